@@ -216,7 +216,7 @@ func init() {
 		Explanation: "Decides the preconditions and wiring SubMerge relies on: (a) resolution ≥ source and resolution/stride multiples of the source resolution are validated (errors) before a group-by is planned; (b) same-typed arguments out/in (resolutions, expression lists) are never swapped between group.Iterate, bytetree.New, the Tree's fields and Sequence.SubMerge; (c) group keys are built from name-sorted GroupBy lists at both construction sites.",
 		NotDecided:  []string{"the bucket arithmetic floor((po+untilOffset)/scale)", "anchoring at the moving 'now'", "values of re-computed ratios"},
 		Assumptions: []string{"role names out*/in*, resolution/otherResolution, ex/otherEx are used consistently in bytetree and encoding"},
-		Rules:       []func(*Ctx){func(c *Ctx) { ruleC06a(c, "C06.a") }, func(c *Ctx) { ruleC06b(c, "C06.b") }, func(c *Ctx) { ruleC06c(c, "C06.c") }, func(c *Ctx) { rulePurity(c, "C06.d") }, func(c *Ctx) { ruleC06e(c, "C06.e") }, func(c *Ctx) { ruleC11b(c, "C06.f") }, func(c *Ctx) {
+		Rules: []func(*Ctx){func(c *Ctx) { ruleC06a(c, "C06.a") }, func(c *Ctx) { ruleC06b(c, "C06.b") }, func(c *Ctx) { ruleC06c(c, "C06.c") }, func(c *Ctx) { rulePurity(c, "C06.d") }, func(c *Ctx) { ruleC06e(c, "C06.e") }, func(c *Ctx) { ruleC11b(c, "C06.f") }, func(c *Ctx) {
 			// a coarse row built from a partial scan is not the aggregate of "exactly the points whose key projects onto it"
 			saved := c.ruleDesc
 			ruleC13aAs(c, "C06.g")
@@ -318,6 +318,46 @@ func ruleC06e(c *Ctx, rule string) {
 				}
 			}
 		}
+		if !found {
+			// the disjunct lives in a private bool helper of planLocal (needsGroupBy(query) …):
+			// the helper must return true whenever the disjunct holds, and the helper's
+			// true outcome must force the group-by in planLocal
+			for _, h := range withHelpers(c.P, pl) {
+				if h == pl || h.Parent() != nil || h.Signature.Results().Len() != 1 || typeStr(h.Signature.Results().At(0).Type()) != "bool" {
+					continue
+				}
+				if !boolHelperTrueWhen(h, d.pred, d.val, d.name == "Crosstab != nil") {
+					continue
+				}
+				c.touch(h)
+				isCallH := func(x ssa.Value) bool {
+					call, isC := x.(*ssa.Call)
+					return isC && call.Call.StaticCallee() == h
+				}
+				for _, ci := range findIfs(pl, isCallH) {
+					found = true
+					if !forces(ci, true) {
+						ok = false
+					}
+				}
+				for _, in := range instrs(pl) {
+					ph, isPhi := in.(*ssa.Phi)
+					if !isPhi {
+						continue
+					}
+					for _, e := range ph.Edges {
+						if v, pol := unNot(e, true); isCallH(v) && pol {
+							for _, ci := range findIfs(pl, func(x ssa.Value) bool { return x == ssa.Value(ph) }) {
+								found = true
+								if !forces(ci, true) {
+									ok = false
+								}
+							}
+						}
+					}
+				}
+			}
+		}
 		c.check(rule, "planLocal: "+d.name+" forces the group-by", gb[0].Pos(), found && ok, "this outcome cannot reach Flatten without addGroupBy", "a query with "+d.name+" can be planned without the group-by stage: it silently returns rows in the table's native grouping/resolution/window")
 	}
 	if du := c.need(rule, "(*z/bytetree.node).doUpdate"); du != nil {
@@ -338,4 +378,71 @@ func ruleC06e(c *Ctx, rule string) {
 			c.check(rule, "doUpdate: SubMerge receives the source column unmodified", call.Pos(), ok, "other = vals[i]", "the column handed to SubMerge is not the source's vals[i] itself (pre-trimmed / transformed): SubMerge's own shift-aware truncation (asOf - shift) can no longer keep the periods it needs")
 		}
 	}
+}
+
+// boolHelperTrueWhen: the bool function h returns true on every path on which
+// the condition matched by pred has the value val (it is tested as a branch
+// whose val-edge reaches only 'return true', or it is itself — with that
+// polarity — the returned value / an operand of the returned short-circuit phi).
+func boolHelperTrueWhen(h *ssa.Function, pred func(ssa.Value) bool, val bool, nilForm bool) bool {
+	retTrueOnly := func(from *ssa.BasicBlock, via *ssa.BasicBlock) bool {
+		all := true
+		n := 0
+		for _, b := range h.Blocks {
+			if len(b.Instrs) == 0 {
+				continue
+			}
+			r, ok := b.Instrs[len(b.Instrs)-1].(*ssa.Return)
+			if !ok {
+				continue
+			}
+			pathsToFrom(via, from, b, func(p pathAtoms) bool {
+				n++
+				if cb, isC := constBool(p.resolve(r.Results[0])); !isC || !cb {
+					all = false
+				}
+				return all
+			})
+		}
+		return all && n > 0
+	}
+	found, ok := false, true
+	for _, ci := range findIfs(h, pred) {
+		found = true
+		v := val
+		if nilForm {
+			_, nn, _ := nilTest(atom{ci.v, true})
+			v = nn
+		}
+		if !retTrueOnly(ci.succFor(v), ci.i.Block()) {
+			ok = false
+		}
+	}
+	if found {
+		return ok
+	}
+	// returned directly or through the short-circuit phi
+	matches := func(e ssa.Value) bool {
+		v, pol := unNot(e, true)
+		if !pred(v) {
+			return false
+		}
+		if nilForm {
+			_, nn, _ := nilTest(atom{v, true})
+			return nn == pol
+		}
+		return pol == val
+	}
+	for _, in := range instrs(h) {
+		r, isR := in.(*ssa.Return)
+		if !isR {
+			continue
+		}
+		for _, leaf := range phiLeaves(r.Results[0]) {
+			if matches(leaf) {
+				return true
+			}
+		}
+	}
+	return false
 }
